@@ -67,8 +67,13 @@ def load_attr(eng, obj, name, st, line=0):
     if name == "__class__":
         yield from eng.class_of(obj, st)
         return
+    from .engine import TAG_CLASSES
+
     for st1, pycls in eng.class_of(obj, st):
-        yield from _load_attr_cls(eng, obj, pycls, name, st1, line)
+        o2 = obj
+        if obj.hint is None and pycls not in TAG_CLASSES:
+            o2 = SV(obj.t, hint=pycls)  # path-local refinement (the class is now part of the path condition)
+        yield from _load_attr_cls(eng, o2, pycls, name, st1, line)
 
 
 def _load_attr_cls(eng, obj: SV, pycls, name, st, line):
